@@ -96,7 +96,7 @@ func runC01(c *Ctx) {
 	c.expect("C01.a", 6)
 	c.expect("C01.b", 2)
 	c.expect("C01.c", 4)
-	c.expect("C01.d", 2)
+	c.expect("C01.d", 3)
 	c.expect("C01.e", 2)
 	c.expect("C01.f", 6)
 	c.expect("C01.g", 20)
@@ -316,6 +316,46 @@ func runC01(c *Ctx) {
 	if nd == 0 {
 		c.undecided("C01.d", render.Name+"/reposition site", render.Decl.Pos(), "no in-loop CUP emission found")
 	}
+	// C01.d (1b): after a link is closed inside the cell loop the pen forgets it, so that a cell continuing
+	// the same link opens it again (the delta test compares against the pen)
+	isLinkForget := func(n ast.Node) bool {
+		as, ok := n.(*ast.AssignStmt)
+		if !ok || len(as.Lhs) != 1 || len(as.Rhs) != 1 {
+			return false
+		}
+		sel, ok := as.Lhs[0].(*ast.SelectorExpr)
+		if !ok || sel.Sel.Name != "Hyperlink" || typeName(info.TypeOf(sel.X)) != modPath+".Style" {
+			return false
+		}
+		v, isStr := constString(info, as.Rhs[0])
+		return isStr && v == ""
+	}
+	isLinkDeltaTest := func(n ast.Node) bool {
+		be, ok := n.(*ast.BinaryExpr)
+		if !ok || be.Op != token.NEQ {
+			return false
+		}
+		l, r := canonExpr(info, be.X), canonExpr(info, be.Y)
+		return strings.HasSuffix(l, ".Hyperlink") && strings.HasSuffix(r, ".Hyperlink") && l != r
+	}
+	for _, cl := range rems {
+		if !isLinkClose(cl) || !inLoop(cl) {
+			continue
+		}
+		stale := false
+		g.walk(Loc{cl.Loc.B, cl.Loc.Idx + 1}, func(l Loc, n ast.Node) bool {
+			if containsNode(n, isLinkForget) {
+				return false
+			}
+			if containsNode(n, isLinkDeltaTest) {
+				stale = true
+				return false
+			}
+			return true
+		}, nil)
+		c.check(!stale, "C01.d", render.Name+"/pen forgets a hyperlink closed at a reposition", cl.Call.Pos(),
+			"pen.Hyperlink is cleared before the next link comparison", "after OSC 8 ;; is written at a reposition the pen still records the link: a following cell with the same link is written without re-opening it and loses its hyperlink")
+	}
 	// C01.d (2): a final close after the loops, guarded only by "link open", on every path from any link-changing emission to exit
 	var finalClose *Emission
 	for _, cl := range rems {
@@ -524,6 +564,12 @@ func c01Pen(c *Ctx, info *types.Info, render *FuncInfo, g *FG, rems []*Emission)
 		}
 		for _, l := range as.Lhs {
 			if o := rootObj(info, l); o != nil && o == penObj && !isPenAssign(x) {
+				// forgetting a hyperlink that was just closed is part of the bookkeeping (C01.d)
+				if sel, ok := l.(*ast.SelectorExpr); ok && strings.HasPrefix(sel.Sel.Name, "Hyperlink") {
+					if v, isStr := constString(info, as.Rhs[0]); isStr && v == "" {
+						continue
+					}
+				}
 				return true
 			}
 		}
